@@ -239,6 +239,13 @@ def structure_union_cases():
         out.append(mk([dict(name="x", ty=PU, val=tree)], {"ty": PI, "val": ints3}))
         out.append(mk([dict(name="x", ty=PU, val=tree)], {"ty": PI, "val": same}))
         out.append(mk([dict(name="x", ty=PU, val=tree), dict(name="y", ty={"t": "pytree", "l": gen_prog.INT, "s": "T T"}, val={"t": tree["t"], **({"keys": ["p", "q"], "vals": [same, same]} if tree["t"] == "dict" else {"xs": [same, same]})})]))
+    # `?` axes: what each leaf position bound is listed by a later error like any other binding
+    Q = {"t": "pytree", "l": arr_type("?n 2"), "s": "T"}
+    QV = {"t": "pytree", "l": arr_type("*?v"), "s": "T"}
+    qtree = {"t": "tuple", "xs": [arr_val([3, 2]), arr_val([5, 2])]}
+    out.append(mk([dict(name="x", ty=Q, val=qtree), dict(name="y", ty=gen_prog.INT, val=gen_prog.sval("no"))]))
+    out.append(mk([dict(name="x", ty=Q, val=qtree)], {"ty": arr_type("k"), "val": arr_val([1, 1])}))
+    out.append(mk([dict(name="x", ty=QV, val=qtree), dict(name="w", ty=arr_type("m"), val=arr_val([4])), dict(name="y", ty=gen_prog.INT, val=gen_prog.sval("no"))]))
     return out
 
 
@@ -259,9 +266,20 @@ def after_misuse_cases(out):
     def g(x: Float[Duck, "a"]) -> Float[Duck, "a a"]:
         return x
 
+    @jaxtyped(typechecker=typeguard.typechecked)
+    def h(t: PyTree[Float[Duck, "a"], "T"], u: PyTree[Float[Duck, "?b"], "T"]):
+        return "ok"
+
+    d2 = Duck((2,), "float32")
+
     def probes():
         res = []
-        for fn, args in ((f, (Duck((2,), "float32"), Duck((5, 3), "float32"))), (f, (Duck((2,), "float32"), Duck((2, 3), "int32"))), (g, (Duck((2,), "float32"),))):
+        try:
+            res.append(h((d2, d2), (Duck((5,), "float32"), d2)))          # well typed: returns
+        except BaseException as e:  # noqa: BLE001
+            res.append("well-typed call raised " + type(e).__name__)
+        for fn, args in ((f, (Duck((2,), "float32"), Duck((5, 3), "float32"))), (f, (Duck((2,), "float32"), Duck((2, 3), "int32"))), (g, (Duck((2,), "float32"),)),
+                         (h, ((d2, d2), (d2, d2, d2))), (h, ((d2, d2), [d2, d2]))):
             try:
                 fn(*args)
                 res.append("returned")
@@ -275,6 +293,8 @@ def after_misuse_cases(out):
         "PyTree[Float] (a bare category as leaf type)": lambda: isinstance((Duck((2,), "float32"),), PyTree[Float]),
         "isinstance(x, Float)": lambda: isinstance(Duck((2,), "float32"), Float),
         "unbound symbolic name inside a PyTree": lambda: isinstance((Duck((2,), "float32"),), PyTree[Float[Duck, "zz+1"]]),
+        "unbound symbolic name inside a STRUCTURED PyTree": lambda: isinstance((Duck((2,), "float32"), Duck((2,), "float32")), PyTree[Float[Duck, "zz+1"], "T"]),
+        "a bare category as leaf type of a structured PyTree": lambda: isinstance((Duck((2,), "float32"),), PyTree[Float, "T"]),
         "'?' beneath two structured PyTrees": lambda: isinstance(((Duck((2,), "float32"),),), PyTree[PyTree[Float[Duck, "?q"], "S"], "T"]),
     }
     for name, misuse in misuses.items():
@@ -297,7 +317,7 @@ def after_misuse_cases(out):
         out.case(("after-misuse", name), True, sample=dict(box, misuse_kind=name))
         if box.get("misuse") != "AnnotationError":
             out.violation("after-misuse:not-annotation-error", f"{name} ended as {box.get('misuse')}, must raise AnnotationError", {"after_misuse": name})
-        if box.get("before") != box.get("after") or "returned" in (box.get("after") or ["returned"]):
+        if box.get("before") != box.get("after") or "returned" in (box.get("after") or ["returned"]) or (box.get("after") or [None])[0] != "ok":
             out.violation("after-misuse:errors-lost", f"after {name} the same ill-typed calls give {box.get('after')} (before: {box.get('before')}); each must raise "
                           f"TypeCheckError as before", {"after_misuse": name})
 
